@@ -62,7 +62,7 @@ macro_rules! group_common {
         fn neutral() -> Self { <$pt>::NEUTRAL }
         fn base() -> Self { <$pt>::BASE }
         fn decode(b: &[u8]) -> Option<Self> { <$pt>::decode(b) }
-        fn set_decode_status(b: &[u8]) -> u32 { let mut p = <$pt>::NEUTRAL; p.set_decode(b) }
+        fn set_decode_status(b: &[u8]) -> u32 { let mut p = <$pt>::BASE; p.set_decode(b) }
         fn add(a: Self, b: Self, v: u32) -> Self {
             match v & 3 { 0 => a + b, 1 => &a + &b, 2 => a + &b, _ => { let mut r = a; r += b; r } }
         }
@@ -82,7 +82,9 @@ macro_rules! group_common {
         }
         fn mulgen(k: &[u8], v: u32) -> Self {
             let s = <$sc>::decode_reduce(k);
-            match v & 1 { 0 => <$pt>::mulgen(&s), _ => { let mut r = <$pt>::NEUTRAL; r.set_mulgen(&s); r } }
+            // the in-place form overwrites its receiver: start from a non-neutral one
+            match v & 3 { 0 | 2 => <$pt>::mulgen(&s), 1 => { let mut r = <$pt>::BASE; r.set_mulgen(&s); r }
+                          _ => { let mut r = <$pt>::BASE.double(); r.set_mulgen(&s); r } }
         }
         fn equals(a: Self, b: Self) -> u32 { a.equals(b) }
         fn isneutral(a: Self) -> u32 { a.isneutral() }
